@@ -136,6 +136,14 @@ def resolve_param(p, kv, n, desc, others=()):
         return a, "start"
     if kind == "end":
         return b, "end"
+    if kind == "within":
+        inner = sorted(set(k for k in kv[p + 1:n] if a < k < b and abs(k) < 4.0))
+        if inner:
+            k0 = inner[desc[1] % len(inner)]
+            u = k0 + desc[3] * 2.0 ** -25
+            if a < u < b and u != k0 and not any(2e-8 < abs(u - k) < 1e-6 for k in kv if k != k0):
+                return u, "near"
+        kind = "in"
     if kind == "near":
         inner = sorted(set(k for k in kv[p + 1:n] if a < k < b))
         eps = (desc[4] if len(desc) > 4 else 2.0 ** -24) * max(1.0, abs(b - a))
